@@ -293,15 +293,15 @@ func (dt DateTime) getComponents() []int {
 func roundToDateTimePrecision(p dateTimePrecision, d time.Duration) time.Duration {
 	switch p {
 	case dtYear:
-		return d / (time.Hour * 24 * 365)
+		return d / (time.Hour * 24 * 365) * (time.Hour * 24 * 365)
 	case dtMonth:
-		return d / (time.Hour * 24 * 30)
+		return d / (time.Hour * 24 * 30) * (time.Hour * 24 * 30)
 	case dtDay:
-		return d / (time.Hour * 24)
+		return d / (time.Hour * 24) * (time.Hour * 24)
 	case dtHour:
-		return d / time.Hour
+		return d / time.Hour * time.Hour
 	case dtMinute:
-		return d / time.Minute
+		return d / time.Minute * time.Minute
 	default:
 		return d
 	}
